@@ -43,6 +43,8 @@ func main() {
 		runC06(r, rng, thorough)
 	case "C18":
 		runC18(r, rng, thorough)
+	case "C13":
+		runC13(r, rng, thorough)
 	case "C14":
 		runC14(r, rng, thorough)
 	case "C17":
